@@ -7,7 +7,7 @@
 import LzmaProofs.Lemmas.Lzma2
 set_option linter.unusedSimpArgs false
 namespace Lzma.C17
-open Lzma Lzma2Decoder
+open Lzma Lzma.L2 Lzma2Decoder
 
 /-! ### control bytes 3 … 0x7F -/
 
@@ -244,7 +244,7 @@ theorem chunk_size_exact {d d' : Lzma2Decoder} {a a' : Accum} {rd rd' : Rd} {c :
       rw [hr, hr3]; unfold hdrLen; cases p <;> simp at hp ⊢ <;> split <;> omega
     omega
   rw [lzProc_eq] at g2
-  have hlen := (DState.processMode_finish_size g2 rfl).1
+  have hlen := (processMode_finish_size g2 rfl).1
   have ha0 : a0.len = (if 0xE0 ≤ c.toNat then 0 else a.len) := by
     split at h3
     · simp only [Accum.reset] at h3
@@ -318,6 +318,74 @@ theorem reject_truncated_lzma_chunk (fuel : Nat) (d : Lzma2Decoder) (a : Accum) 
       have := (chunk_size_exact h).2.2.2.2.1
       dsimp only at this
       omega
+
+
+/-- the error class of `reject_truncated_lzma_chunk` -/
+theorem parseLzma_truncated_class {d : Lzma2Decoder} {a : Accum} {rd : Rd} {c : UInt8}
+    {s s' : Sink} {e : Err} (hc : 0x80 ≤ c.toNat) (hl : rd.rem.length < hdrLen c + 5)
+    (h : parseLzma d a rd c.toNat s = (s', .error e)) :
+    e = .lzma ∨ e = .io ∨ d.lzmaState.props.validate = .error e := by
+  rw [parseLzma_eq_NF] at h
+  generalize lzProc = proc at h
+  unfold parseLzmaNF at h
+  split at h
+  · simp at h; exact Or.inl h.2.symm
+  split at h
+  · rename_i h1; simp at h; rw [← h.2]; exact Or.inl (lzErr_error_inv h1)
+  rename_i u rd1 h1
+  split at h
+  · rename_i h2; simp at h; rw [← h.2]; exact Or.inl (lzErr_error_inv h2)
+  rename_i p rd2 h2
+  split at h
+  · rename_i h3; simp at h; rw [← h.2]; exact Or.inr (Or.inl (optReset_error h3))
+  rename_i s0 a0 h3
+  split at h
+  · rename_i h4; simp at h; rw [← h.2]
+    rcases propsStage_error_class h4 with h | h
+    · exact Or.inl h
+    · exact Or.inr (Or.inr h)
+  rename_i st0 rd3 h4
+  have hshort : rd3.rem.length < 5 := by
+    obtain ⟨u1, u2, r1, hr1, -, rfl⟩ := Rd.readU16BE_ok_iff.1 (lzErr_ok_inv h1)
+    obtain ⟨p1, p2, r2, hr2, -, rfl⟩ := Rd.readU16BE_ok_iff.1 (lzErr_ok_inv h2)
+    obtain ⟨po, hr3, -, hp, -⟩ := (propsStage_ok_iff_chunk hc).1 h4
+    dsimp only at hr2 hr3
+    rw [hr1, hr2, hr3] at hl
+    unfold hdrLen at hl
+    cases po with
+    | none => simp at hp hl; split at hl <;> omega
+    | some b => simp at hp hl; rw [if_pos hp.1] at hl; omega
+  rw [payloadStage_short hshort] at h
+  simp at h
+  exact Or.inl h.2.symm
+
+
+/-- `reject_truncated_lzma_chunk` with its error class: `LzmaError`; or `io` when the dictionary
+reset failed on a faulty sink; or — only for a decoder state whose properties are invalid, which
+`Lzma2Decoder::new`/`parse_lzma` never produce — the `validate` panic of `reset_state` -/
+theorem reject_truncated_lzma_chunk_class (fuel : Nat) (d : Lzma2Decoder) (a : Accum) (rd : Rd)
+    (s : Sink) (c : UInt8) (rest : Bytes) (hr : rd.rem = c :: rest) (hc : 0x80 ≤ c.toNat)
+    (hl : rest.length < hdrLen c + 5) :
+    ∃ s' e, chunkLoop (fuel + 1) d a rd s = (s', .error e) ∧
+      (e = .lzma ∨ e = .io ∨ d.lzmaState.props.validate = .error e) := by
+  cases h : parseLzma d a { rd with rem := rest } c.toNat s with
+  | mk s' r =>
+    cases r with
+    | error e =>
+      exact ⟨s', e, chunkLoop_of_parseLzma_error hr (by omega) h,
+        parseLzma_truncated_class hc (by simpa using hl) h⟩
+    | ok x =>
+      obtain ⟨d', a', rd'⟩ := x
+      have := (chunk_size_exact h).2.2.2.2.1
+      dsimp only at this
+      omega
+
+/-- the empty input is rejected -/
+example (s : Sink) : lzma2Decompress (Rd.ofBytes []) s = (s, .error .lzma) := by
+  unfold lzma2Decompress
+  rw [Lzma2Decoder.new_eq]
+  simp only [bind_run, liftE_ok, decompress]
+  rw [reject_truncated_control _ _ _ _ _ rfl]
 
 /-! ### the end byte, and the inversion: success implies well-formed framing -/
 
